@@ -34,12 +34,20 @@ pub mod trusted_keys {
     #[verifier::external_body]
     pub broadcast proof fn axiom_vec_u8_ext(a: Vec<u8>, b: Vec<u8>) ensures #[trigger] (a@ =~= b@) ==> a == b {}
 
+    /// the byte vector with a given content
+    pub uninterp spec fn vec_of(s: Seq<u8>) -> Vec<u8>;
+    #[verifier::external_body]
+    pub broadcast proof fn axiom_vec_of(s: Seq<u8>) ensures (#[trigger] vec_of(s))@ == s {}
+    // two str slices with the same content are equal (needed for `match s.as_str() { CONST => .. }`)
+    #[verifier::external_body]
+    pub broadcast proof fn axiom_str_ext(a: &str, b: &str) ensures #![trigger a@, b@] (a@ == b@) ==> a == b {}
+
     pub broadcast group group_trusted_keys {
         axiom_vecu8_key_model, axiom_uid_key_model, axiom_string_key_model, axiom_string_of, axiom_string_of_view,
-        axiom_contains_str_key, axiom_maps_str_key, axiom_vec_u8_ext,
+        axiom_contains_str_key, axiom_maps_str_key, axiom_vec_u8_ext, axiom_str_ext, axiom_vec_of,
     }
 }
-pub use trusted_keys::string_of;
+pub use trusted_keys::{string_of, vec_of};
 
 // ---- history lists: the last entry not later than the date decides
 pub closed spec fn last_user_at(s: Seq<User>, date: i64) -> Option<User>
